@@ -465,8 +465,14 @@ where
 
             Submission::Tombstone { tombstone, stats } => self.tombstone_infos.push(TombstoneInfo { tombstone, stats }),
             Submission::Reinsertion { reinsertion } => {
-                // Skip reinsertion if the entry is not in the indexer.
-                if self.indexer.get(reinsertion.hash).is_some() {
+                // Skip reinsertion if this copy is not the one the indexer points to: a superseded copy would be kept
+                // alive for nothing, and it would take the key's place in the index whenever the entry of the latest
+                // version is dropped from it (a load that found its address overwritten, for example).
+                if self
+                    .indexer
+                    .get(reinsertion.hash)
+                    .is_some_and(|addr| addr.sequence == reinsertion.sequence)
+                {
                     report(self.buffer.as_mut().unwrap().push_slice(
                         &reinsertion.slice[..reinsertion.len],
                         reinsertion.hash,
